@@ -155,6 +155,14 @@ func (gs *GuardianSets) getGuardianSetsRange(ctx context.Context, fromIndex uint
 	if err != nil {
 		return nil, err
 	}
+	// The contract answers an index it does not have (yet) with an empty set: only ask for the sets it has.
+	chainIndex, err := contract.GetCurrentGuardianSetIndex(&bind.CallOpts{Context: ctx})
+	if err != nil {
+		return nil, err
+	}
+	if toIndex > chainIndex {
+		toIndex = chainIndex
+	}
 	return getGuardianSetsFromChain(ctx, contract, fromIndex, toIndex)
 }
 
